@@ -5,6 +5,7 @@ import (
 	"reflect"
 
 	"github.com/goghcrow/yae/types"
+	"github.com/goghcrow/yae/util"
 	"github.com/goghcrow/yae/val"
 )
 
@@ -16,7 +17,8 @@ func MustValEnvOf(v interface{}) *val.Env {
 	return env
 }
 
-func ValEnvOf(v interface{}) (*val.Env, error) {
+func ValEnvOf(v interface{}) (env *val.Env, err error) {
+	defer util.Recover(&err)
 	if v == nil {
 		return val.NewEnv(), nil
 	}
@@ -33,7 +35,7 @@ func ValEnvOf(v interface{}) (*val.Env, error) {
 	if vl.Type.Kind != types.KObj {
 		return nil, fmt.Errorf("expect struct type actual %s", reflect.TypeOf(v))
 	}
-	env := val.NewEnv()
+	env = val.NewEnv()
 
 	fs := vl.Obj().Type.Obj().Fields
 	for i, ov := range vl.Obj().V {
